@@ -456,3 +456,107 @@ def walk(stmts, F, where="?", rebind=None, strict=True, flow=False, exc=None):
         W.raised_in_guard = ex.st
         W.raised_kind = ex.kind
     return W
+
+
+def specialise(stmts, F):
+    """Copy of ``stmts`` with every guard the scenario decides resolved - everywhere, loop bodies included: the arm not
+    taken goes, decided operands of ``and`` / ``or`` are dropped, conditional expressions are replaced by the branch
+    taken, a local bound once to a decided test (``skips = hop > size``) is a described name from then on.  What the
+    scenario does not describe is kept as it is.  (A partial evaluation of guards over looked-up atoms; no code runs.)"""
+    F = F.copy()
+    TRUE, FALSE = ast.Constant(value=True), ast.Constant(value=False)
+    stores = {}
+    for st0 in stmts:
+        for n in ast.walk(st0):
+            if isinstance(n, ast.Name) and isinstance(n.ctx, (ast.Store, ast.Del)):
+                stores[n.id] = stores.get(n.id, 0) + 1
+
+    def simp(t):
+        """bool when decided, else a (possibly simplified) expression"""
+        r = holds(t, F)
+        if r is True or r is False:
+            return r
+        if isinstance(t, ast.UnaryOp) and isinstance(t.op, ast.Not):
+            x = simp(t.operand)
+            if x is True or x is False:
+                return not x
+            return ast.UnaryOp(op=ast.Not(), operand=x)
+        if isinstance(t, ast.BoolOp):
+            is_and = isinstance(t.op, ast.And)
+            keep = []
+            for v in t.values:
+                x = simp(v)
+                if x is True or x is False:
+                    if x != is_and:
+                        # a false operand of ``and`` / a true one of ``or`` decides the whole thing - provided every
+                        # operand before it was decided too (the others would have been evaluated first)
+                        if not keep:
+                            return x
+                        keep.append(FALSE if not x else TRUE)
+                        break
+                    continue
+                keep.append(x)
+            if not keep:
+                return is_and
+            return keep[0] if len(keep) == 1 else ast.BoolOp(op=t.op, values=keep)
+        return t
+
+    def block(body):
+        out = []
+        for st in body:
+            st = ast.parse(unparse(st)).body[0]
+            res = _Resolve(F, "specialise")
+            if isinstance(st, ast.If):
+                x = simp(st.test)
+                if x is True:
+                    out.extend(block(st.body))
+                    continue
+                if x is False:
+                    out.extend(block(st.orelse))
+                    continue
+                st.test = x
+                st.body = block(st.body) or [ast.Pass()]
+                st.orelse = block(st.orelse)
+                out.append(st)
+                continue
+            if isinstance(st, (ast.For, ast.While)):
+                if isinstance(st, ast.While):
+                    x = simp(st.test)
+                    if x is False:
+                        out.extend(block(st.orelse))
+                        continue
+                    st.test = TRUE if x is True else x
+                st.body = block(st.body) or [ast.Pass()]
+                st.orelse = block(st.orelse)
+                out.append(st)
+                continue
+            if isinstance(st, ast.With):
+                st.body = block(st.body) or [ast.Pass()]
+                out.append(st)
+                continue
+            if isinstance(st, ast.Try):
+                st.body = block(st.body) or [ast.Pass()]
+                for h in st.handlers:
+                    h.body = block(h.body) or [ast.Pass()]
+                st.orelse = block(st.orelse)
+                st.finalbody = block(st.finalbody)
+                out.append(st)
+                continue
+            if isinstance(st, (ast.FunctionDef, ast.AsyncFunctionDef, ast.ClassDef)):
+                out.append(st)
+                continue
+            st = res.visit(st)
+            if isinstance(st, ast.Assign) and len(st.targets) == 1 and isinstance(st.targets[0], ast.Name):
+                nm = st.targets[0].id
+                r = holds(st.value, F) if isinstance(st.value, (ast.Compare, ast.BoolOp, ast.UnaryOp, ast.Call)) else None
+                F.forget(nm)
+                if (r is True or r is False) and stores.get(nm) == 1:
+                    F.truths[nm] = r        # bound once: the flag keeps this value wherever it is read
+            elif isinstance(st, ast.AugAssign) and isinstance(st.target, ast.Name):
+                F.forget(st.target.id)
+            out.append(st)
+        for s_ in out:
+            ast.fix_missing_locations(s_)
+        return out
+    return block(list(stmts))
+
